@@ -11,7 +11,7 @@ if [ "$DEMO" != "-" ]; then
   DEMO=$(readlink -f "$DEMO")
   ( cd /tmp && HAPTOOLS_REPO="$WT" PYTHONPATH="$WT" timeout 900 /venv/bin/python "$DEMO" >/dev/null 2>&1 ); echo "demo on clean tree: exit $?"
 fi
-git -C "$WT" apply "$PATCH" || { echo "patch does not apply"; exit 2; }
+git -C "$WT" apply "$PATCH" 2>/dev/null || git -C "$WT" apply --3way "$PATCH" 2>/dev/null || { echo "patch does not apply"; exit 2; }
 if [ "$DEMO" != "-" ]; then
   ( cd /tmp && HAPTOOLS_REPO="$WT" PYTHONPATH="$WT" timeout 900 /venv/bin/python "$DEMO" >/dev/null 2>&1 ); echo "demo on changed tree: exit $?"
 fi
